@@ -215,8 +215,8 @@ type world struct {
 	cur    int
 	// epilogue: the fixed closing steps are running (they do not count for
 	// the non-trivial rule).
-	epilogue bool
-	twinDeviated    bool
+	epilogue     bool
+	twinDeviated bool
 }
 
 var errDeliberate = errors.New("c08: deliberate updater failure")
@@ -584,6 +584,42 @@ func (w *world) checkCloneEqRoot(after string) *kit.Failure {
 
 func describeEdits(ds []string) string { return "[" + strings.Join(ds, "; ") + "]" }
 
+// schemaHolds is the harness's own reading of the rule set (independent of
+// pkg/schema): every rule's path resolves, through live object keys, to an
+// element of the rule's kind. Primitive rules only require a primitive here.
+func schemaHolds(root *crdt.Object, rules []types.Rule) (bool, string) {
+	for _, rule := range rules {
+		var cur crdt.Element = root
+		for _, k := range strings.Split(rule.Path, ".")[1:] {
+			o, ok := cur.(*crdt.Object)
+			if !ok {
+				cur = nil
+				break
+			}
+			cur = o.Get(k)
+		}
+		ok := false
+		switch rule.Type {
+		case "object":
+			_, ok = cur.(*crdt.Object)
+		case "array":
+			_, ok = cur.(*crdt.Array)
+		case "yorkie.Text":
+			_, ok = cur.(*crdt.Text)
+		case "yorkie.Tree":
+			_, ok = cur.(*crdt.Tree)
+		case "yorkie.Counter":
+			_, ok = cur.(*crdt.Counter)
+		default:
+			_, ok = cur.(*crdt.Primitive)
+		}
+		if !ok {
+			return false, fmt.Sprintf("%s is not a %s (it is %T)", rule.Path, rule.Type, cur)
+		}
+	}
+	return true, ""
+}
+
 // failingUpdate executes one "fail" step. It returns a violation, or an abort
 // reason when the case cannot be continued for a reason outside the property.
 func (w *world) failingUpdate(s Step) (*kit.Failure, string) {
@@ -618,6 +654,7 @@ func (w *world) failingUpdate(s Step) (*kit.Failure, string) {
 
 	var rules []types.Rule
 	breaker := ""
+	validBefore := false
 	switch mode {
 	case "schema":
 		switch s.A % 4 {
@@ -630,10 +667,28 @@ func (w *world) failingUpdate(s Step) (*kit.Failure, string) {
 		case 2:
 			rules = []types.Rule{{Path: "$.o", Type: "object"}, {Path: "$.a", Type: "array"}, {Path: "$.t", Type: "yorkie.Text"},
 				{Path: "$.c", Type: "yorkie.Counter"}, {Path: "$.tr", Type: "yorkie.Tree"}}
+			if s.A >= 4 {
+				// the callback removes one of the required containers
+				breaker = "del:" + []string{"o", "a", "t", "c", "tr"}[s.K%5]
+			}
 		case 3:
 			rules = []types.Rule{{Path: "$.o.x", Type: "integer"}}
+			if s.A >= 4 {
+				breaker = "delox"
+			}
+		}
+		if s.A >= 4 && s.K%2 == 0 {
+			// removal-only callback: nothing but the schema-breaking removal
+			edits = nil
 		}
 		w.D.SchemaRules = rules
+		validBefore, _ = schemaHolds(w.D.RootObject(), rules)
+		if validBefore && breaker != "" {
+			w.ev["schema_breaker_on_valid_doc"]++
+			if len(edits) == 0 {
+				w.ev["schema_removal_only_breaker"]++
+			}
+		}
 	case "size":
 		total := func() int { ds := w.D.DocSize(); return ds.Total() }()
 		switch s.A % 3 {
@@ -667,9 +722,23 @@ func (w *world) failingUpdate(s Step) (*kit.Failure, string) {
 			r.SetInteger("k1", 7)
 		case "delc":
 			r.Delete("c")
+		case "delox":
+			if o := r.GetObject("o"); o != nil {
+				o.Delete("x")
+			} else {
+				r.Delete("o")
+			}
+		default:
+			if strings.HasPrefix(breaker, "del:") {
+				r.Delete(strings.TrimPrefix(breaker, "del:"))
+			}
 		}
 		return nil
 	})
+	validAfter, whyInvalid := true, ""
+	if mode == "schema" {
+		validAfter, whyInvalid = schemaHolds(w.D.RootObject(), rules)
+	}
 	w.D.SchemaRules = nil
 	w.D.MaxSizeLimit = 0
 	w.noteLocal()
@@ -684,6 +753,12 @@ func (w *world) failingUpdate(s Step) (*kit.Failure, string) {
 			w.logf("D fail(%s) %s -> UNEXPECTED PANIC %v", mode, describeEdits(descs), pan)
 			return nil, "edit_panic_in_failing_update"
 		}
+	}
+	if pan == nil && uerr == nil && mode == "schema" && validBefore && !validAfter {
+		// an update that breaks the attached schema must fail and leave
+		// everything as before; this one was committed
+		return kit.Failf("SCHEMA-BREAKING-UPDATE-COMMITTED", "with the rules %v attached the document satisfied them before the update %s; the update returned nil and now %s (document: %s)",
+			rules, describeEdits(append(descs, breaker)), whyInvalid, w.D.Marshal()), ""
 	}
 	if pan == nil && uerr == nil {
 		// The drawn rule set / size limit was not violated: an ordinary
